@@ -168,72 +168,100 @@ impl Module {
                     validator
                         .data_section(&s)
                         .context("failed to parse data section")?;
+                    #[cfg(walrus_verif)]
+                    crate::verif::emit("validated", "data", -1, -1);
                     ret.parse_data(s, &mut indices)?;
                 }
                 Payload::TypeSection(s) => {
                     validator
                         .type_section(&s)
                         .context("failed to parse type section")?;
+                    #[cfg(walrus_verif)]
+                    crate::verif::emit("validated", "type", -1, -1);
                     ret.parse_types(s, &mut indices)?;
                 }
                 Payload::ImportSection(s) => {
                     validator
                         .import_section(&s)
                         .context("failed to parse import section")?;
+                    #[cfg(walrus_verif)]
+                    crate::verif::emit("validated", "import", -1, -1);
                     ret.parse_imports(s, &mut indices)?;
                 }
                 Payload::TableSection(s) => {
                     validator
                         .table_section(&s)
                         .context("failed to parse table section")?;
+                    #[cfg(walrus_verif)]
+                    crate::verif::emit("validated", "table", -1, -1);
                     ret.parse_tables(s, &mut indices)?;
                 }
                 Payload::MemorySection(s) => {
                     validator
                         .memory_section(&s)
                         .context("failed to parse memory section")?;
+                    #[cfg(walrus_verif)]
+                    crate::verif::emit("validated", "memory", -1, -1);
                     ret.parse_memories(s, &mut indices)?;
                 }
                 Payload::GlobalSection(s) => {
                     validator
                         .global_section(&s)
                         .context("failed to parse global section")?;
+                    #[cfg(walrus_verif)]
+                    crate::verif::emit("validated", "global", -1, -1);
                     ret.parse_globals(s, &mut indices)?;
                 }
                 Payload::ExportSection(s) => {
                     validator
                         .export_section(&s)
                         .context("failed to parse export section")?;
+                    #[cfg(walrus_verif)]
+                    crate::verif::emit("validated", "export", -1, -1);
                     ret.parse_exports(s, &indices)?;
                 }
                 Payload::ElementSection(s) => {
                     validator
                         .element_section(&s)
                         .context("failed to parse element section")?;
+                    #[cfg(walrus_verif)]
+                    crate::verif::emit("validated", "element", -1, -1);
                     ret.parse_elements(s, &mut indices)?;
                 }
                 Payload::StartSection { func, range, .. } => {
                     validator.start_section(func, &range)?;
+                    #[cfg(walrus_verif)]
+                    crate::verif::emit("validated", "start", -1, -1);
+                    #[cfg(walrus_verif)]
+                    crate::verif::emit("interpret", "start", -1, -1);
                     ret.start = Some(indices.get_func(func)?);
                 }
                 Payload::FunctionSection(s) => {
                     validator
                         .function_section(&s)
                         .context("failed to parse function section")?;
+                    #[cfg(walrus_verif)]
+                    crate::verif::emit("validated", "function", -1, -1);
                     ret.declare_local_functions(s, &mut indices)?;
                 }
                 Payload::DataCountSection { count, range } => {
                     validator.data_count_section(count, &range)?;
+                    #[cfg(walrus_verif)]
+                    crate::verif::emit("validated", "datacount", -1, -1);
                     ret.reserve_data(count, &mut indices);
                 }
                 Payload::CodeSectionStart { count, range, .. } => {
                     validator.code_section_start(count, &range)?;
+                    #[cfg(walrus_verif)]
+                    crate::verif::emit("validated", "code-start", -1, -1);
                     ret.funcs.code_section_offset = range.start;
                 }
                 Payload::CodeSectionEntry(body) => {
                     let validator = validator
                         .code_section_entry(&body)?
                         .into_validator(Default::default());
+                    #[cfg(walrus_verif)]
+                    crate::verif::emit("validated", "code-entry", local_functions.len() as i64, -1);
                     local_functions.push((body, validator));
                 }
                 Payload::CustomSection(s) => {
@@ -304,6 +332,8 @@ impl Module {
             }
         }
 
+        #[cfg(walrus_verif)]
+        crate::verif::emit("validated", "end", -1, -1);
         ret.parse_local_functions(
             local_functions,
             &mut indices,
@@ -329,6 +359,8 @@ impl Module {
             .add_processed_by("walrus", env!("CARGO_PKG_VERSION"));
 
         if let Some(on_parse) = &config.on_parse {
+            #[cfg(walrus_verif)]
+            crate::verif::emit("on_parse", "", -1, -1);
             on_parse(&mut ret, &indices)?;
         }
 
